@@ -116,7 +116,7 @@ var zzHosts = []struct {
 	{"127.0.0.1", true, net.IPv4(127, 0, 0, 1)},
 	{"0.0.0.0", true, net.IPv4(0, 0, 0, 0)},
 	{"[::1]", true, net.IPv6loopback},
-	{"::1", false, nil},       // too many colons
+	{"::1", false, nil},        // too many colons
 	{"[127.0.0.1", false, nil}, // missing bracket
 	{"nosuch.invalid", false, nil},
 }
